@@ -2365,3 +2365,11 @@ variant('b-stop-tasks-stale-clear', ['C17'], RB,
 variant('b-client-stop-tasks-stale-keepalive-clear', ['C17'], 'rsocket/rsocket_client.py',
         "        if self._keepalive_task is keepalive_task:\n            self._keepalive_task = None",
         "        self._keepalive_task = None", ('C17.h', 'cleared only if it still holds'))
+
+# C11.n (F23) the receiver does not wait for a task that awaits application code
+variant('b-receiver-waits-for-the-watchdog', ['C11'], 'rsocket/rsocket_client.py',
+        "            if keepalive_timeout_task is not None:\n                keepalive_timeout_task.cancel()",
+        "            await cancel_if_task_exists(keepalive_timeout_task)", ('C11.n', '_receiver_listen'))
+variant('b-watchdog-never-cancelled', ['C11'], 'rsocket/rsocket_client.py',
+        "            if keepalive_timeout_task is not None:\n                keepalive_timeout_task.cancel()",
+        "            pass", ('C11.e', 'local task keepalive_timeout_task'))
